@@ -121,6 +121,18 @@ def main():
         res["caught_by"] = [c for c, v in res["checks"].items() if v["rc"] == 1 and v["violations"]]
         if confirmed:
             d = os.path.join(ROOT, "seeded", name)
+            history = []
+            try:
+                old = json.load(open(os.path.join(d, "meta.json")))
+                history = old.get("history") or []
+                for c, v in sorted((old.get("check_results") or {}).items()):
+                    st = "caught" if (v.get("rc") == 1 and v.get("violations")) else ("MISSED" if v.get("rc") == 0 else "rc=%s" % v.get("rc"))
+                    new = res["checks"].get(c, {})
+                    nst = "caught" if (new.get("rc") == 1 and new.get("violations")) else ("MISSED" if new.get("rc") == 0 else "rc=%s" % new.get("rc"))
+                    if st != nst:
+                        history.append("%s %s" % (c, st))
+            except Exception:
+                pass
             shutil.rmtree(d, ignore_errors=True)
             os.makedirs(d)
             shutil.copy(patch, os.path.join(d, "patch.diff"))
@@ -137,6 +149,8 @@ def main():
                 "builds", "tests_cmd", "tests_pass", "demo_fails_with_patch", "demo_passes_without_patch", "touched_pkgs")}
             meta["check_results"] = res["checks"]
             meta["caught_by"] = res["caught_by"]
+            if history:
+                meta["history"] = history
             meta["how_run"] = "tools/seedeval.py: scratch worktree + git apply; VERIF_REPO=<worktree> ./check <id> --tier %s" % a.tier
             json.dump(meta, open(os.path.join(d, "meta.json"), "w"), indent=1)
     finally:
